@@ -700,6 +700,11 @@ any receiver slice value with nil.
 func (r Stack) Replace(x any, idx int) (ok bool) {
 	if r.IsInit() && x != nil {
 		if !r.getState(ronly) {
+			// (the private replace is also called by
+			// reveal, which already holds the lock)
+			r.stack.lock()
+			defer r.stack.unlock()
+
 			ok = r.stack.replace(x, idx)
 		}
 	}
